@@ -5,6 +5,7 @@ CONSTANTS
   MaxIters = 4
   Modes = {"new", "all"}
   Variant = "offset_by_count"
+  AllowLoss = TRUE
   Emit = FALSE
 INVARIANT TypeOK
 INVARIANT TableComplete
